@@ -533,3 +533,167 @@ def b_note_shorthand(tier, rnd):
     octs = (1, 4, 8)
     return {"rule": "Notes on 35 canonical names x octaves {1,4,8} x 35 shorthands",
             "cases": [(Note(n, o), s) for n in canon_names(2) for o in octs for s in interval_shorthands(2)]}
+
+
+# ---------------------------------------------------------------- MIDI track encoders
+def _tracks():
+    from mingus.midi.midi_track import MidiTrack
+    out = []
+    for dt in (b"\x00", b"\x48", b"\x81\x00", b"\xff\xff\xff\x7f", b""):
+        t = MidiTrack()
+        t.delta_time = dt
+        out.append(t)
+    return out
+
+
+INT28 = sorted(set([0, 1, 2, 63, 64, 100, 126, 127, 128, 129, 255, 256, 1000, 8191, 8192, 16382, 16383, 16384, 16385,
+                    2097150, 2097151, 2097152, 2097153, 2 ** 24, 2 ** 28 - 2, 2 ** 28 - 1] +
+                   [128 ** k + d for k in (1, 2, 3) for d in range(-3, 4)]))
+
+
+@battery("track_int28")
+def b_track_int28(tier, rnd):
+    extra = [rnd.randrange(0, 2 ** 28) for _ in range(2000 if tier == "quick" else 200000)]
+    return {"rule": "a MidiTrack x boundary neighbourhoods of 128^k, extremes, and seeded values in 0..2^28-1",
+            "cases": [(t, v) for t in _tracks()[:1] for v in INT28 + extra]}
+
+
+@battery("track_event")
+def b_track_event(tier, rnd):
+    vals = (-1, 0, 1, 9, 15, 16, 127, 128)
+    return {"rule": "5 pending delta times x event_type/channel/param values around their bounds x param2 in {None, ...}",
+            "cases": [(t, e, c, p1, p2) for t in _tracks() for e in (-1, 0, 8, 9, 15, 16) for c in (-1, 0, 5, 15, 16)
+                      for p1 in (-1, 0, 64, 127, 128) for p2 in (None, -1, 0, 127, 128)]}
+
+
+@battery("track_3ints")
+def b_track_3ints(tier, rnd):
+    v = (-1, 0, 1, 60, 127, 128)
+    return {"rule": "5 pending delta times x channel {-1,0,9,15,16} x two data bytes around their bounds",
+            "cases": [(t, c, a, b) for t in _tracks() for c in (-1, 0, 9, 15, 16) for a in v for b in v]}
+
+
+@battery("track_2ints")
+def b_track_2ints(tier, rnd):
+    return {"rule": "5 pending delta times x channel x program around their bounds",
+            "cases": [(t, c, a) for t in _tracks() for c in (-1, 0, 9, 15, 16) for a in (-1, 0, 1, 60, 127, 128)]}
+
+
+@battery("track_bpm")
+def b_track_bpm(tier, rnd):
+    bpms = list(range(4, 1001)) + [4000, 60000000, 59999999, 30000001]
+    return {"rule": "bpm 4..1000 and extremes", "cases": [(t, b) for t in _tracks()[:2] for b in bpms]}
+
+
+@battery("track_only")
+def b_track_only(tier, rnd):
+    from mingus.midi.midi_track import MidiTrack
+    ts = _tracks()
+    t = MidiTrack()
+    t.track_data = bytes(range(256)) * 300
+    ts.append(t)
+    t2 = MidiTrack()
+    t2.track_data = b""
+    ts.append(t2)
+    return {"rule": "tracks with empty, default and 76800-byte data", "cases": [(t,) for t in ts]}
+
+
+@battery("track_key")
+def b_track_key(tier, rnd):
+    return {"rule": "5 pending delta times x 30 keys", "cases": [(t, k) for t in _tracks() for k in KEYS30]}
+
+
+@battery("track_meter")
+def b_track_meter(tier, rnd):
+    return {"rule": "counts 0..255 (sample) x beat units 1..128",
+            "cases": [(t, (n, d)) for t in _tracks()[:2] for n in (0, 1, 2, 3, 4, 5, 6, 7, 9, 12, 255)
+                      for d in (1, 2, 4, 8, 16, 32, 64, 128)]}
+
+
+@battery("log_domain")
+def b_log_domain(tier, rnd):
+    cases = []
+    for b in (2, 128):
+        k = 0
+        while b ** k < 2 ** 28:
+            for d in range(-1024, 1025) if tier == "quick" else range(-65536, 65537):
+                v = b ** k + d
+                if 1 <= v < 2 ** 28:
+                    cases.append((v, b))
+            k += 1
+        for _ in range(20000 if tier == "quick" else 2000000):
+            cases.append((rnd.randrange(1, 2 ** 28), b))
+    return {"rule": "every power of the base below 2^28 with its +-1024 (thorough: +-65536) neighbourhood, plus seeded values",
+            "cases": cases}
+
+
+@battery("bpms")
+def b_bpms(tier, rnd):
+    return {"rule": "bpm 4..1000", "exhaustive_upto": 1000, "cases": [(b,) for b in range(4, 1001)]}
+
+
+def _mfile():
+    from mingus.midi.midi_file_in import MidiFile
+    return MidiFile()
+
+
+@battery("byte_strings")
+def b_byte_strings(tier, rnd):
+    cases = [(_mfile(), bytes([a])) for a in range(256)]
+    cases += [(_mfile(), bytes([a, b])) for a in range(0, 256, 5) for b in range(256)]
+    for n in (3, 4):
+        for _ in range(3000):
+            cases.append((_mfile(), bytes(rnd.randrange(256) for _ in range(n))))
+        cases.append((_mfile(), b"\x00" * n))
+        cases.append((_mfile(), b"\xff" * n))
+    return {"rule": "all 1-byte strings, 13k 2-byte strings, seeded 3- and 4-byte strings with the extremes", "cases": cases}
+
+
+def _vlq(n):
+    out = [n & 0x7F]
+    n >>= 7
+    while n:
+        out.append((n & 0x7F) | 0x80)
+        n >>= 7
+    return bytes(reversed(out))
+
+
+@battery("vlq_files")
+def b_vlq_files(tier, rnd):
+    import io
+    vals = INT28 + [rnd.randrange(0, 2 ** 28) for _ in range(3000)]
+    cases = []
+    for v in vals:
+        for pre in (b"", b"\x01\x02"):
+            f = io.BytesIO(pre + _vlq(v) + b"\x90\x3c\x40\x00")
+            f.read(len(pre))
+            cases.append((_mfile(), GhostFile(f), True))
+    return {"rule": "files positioned at the standard encoding of boundary and seeded values 0..2^28-1 (at offset 0 and 2)",
+            "cases": cases}
+
+
+class GhostFile(object):
+    """a real binary file object exposing .data / .pos so that the contract's ghost view can be evaluated"""
+
+    def __init__(self, f):
+        self._f = f
+        self.data = f.getvalue()
+
+    @property
+    def pos(self):
+        return self._f.tell()
+
+    def read(self, n=-1):
+        return self._f.read(n)
+
+
+@battery("track_header_files")
+def b_track_header_files(tier, rnd):
+    import io
+    cases = []
+    for tag in (b"MTrk", b"MThd", b"mtrk", b"MTrK", b"\x00\x00\x00\x00", b"RIFF"):
+        for size in (0, 1, 255, 256, 65535, 65536, 2 ** 24, 2 ** 32 - 1, rnd.randrange(2 ** 32)):
+            f = io.BytesIO(b"\x00" + tag + size.to_bytes(4, "big") + b"\x00\xff\x2f\x00")
+            f.read(1)
+            cases.append((_mfile(), GhostFile(f)))
+    return {"rule": "6 tags (one valid) x 9 chunk sizes incl. extremes, file positioned at offset 1", "cases": cases}
